@@ -271,6 +271,20 @@ pub fn equals_vector(v1: &VecH, v2: &VecH, heap: &Heap) -> (r: Result<bool, VErr
 }}
 """)
     obls.append(Obl("C13.equals.vector", ["C13"], fn="equals_vector", desc="list == list: same length and elementwise equal (not just a common prefix)"))
+    # twin obligation for known finding D76: by the sequence model, `==` on lists is the LANGUAGE's `==` on the elements (a present optional equals the
+    # value it holds: C12) -- the code compares the elements' representations
+    fns.append("""
+//@ KF C13.equals.vector.language-eq
+pub fn equals_vector_lang(v1: &VecH, v2: &VecH, heap: &Heap) -> (r: Result<bool, VErr>)
+    requires live(heap, v1), live(heap, v2)
+    ensures r is Ok ==> r->Ok_0 == (vecs(heap)[vid(v1)].len() == vecs(heap)[vid(v2)].len()
+                && forall|i: int| 0 <= i < vecs(heap)[vid(v1)].len() ==> eqp(#[trigger] vecs(heap)[vid(v1)][i], vecs(heap)[vid(v2)][i]))
+{
+""" + render(b, 1) + """
+}
+""")
+    obls.append(Obl("C13.equals.vector.language-eq", ["C13", "C12"], kind="kf", finding="D76", fn="equals_vector_lang",
+                    desc="list == list compares the elements with the language's `==` (a present optional equals the value it holds) -- known finding D76: it compares representations"))
     # vec_op `[idx]` on a list: the bounds check in front of the element pointer
     fv = src.fn("bytecode/src/instruction.rs", "vec_op", "pub mod implementations")
     try:
